@@ -167,7 +167,7 @@ def gen_num7():
     b = _norm(function_body(ct, r"Counter::getPreviouslyCounted\s*\([^)]*\)\s*const\s*\{", "getPreviouslyCounted"))
     need(lit("CountType result = 0; for(NodeVectorType::size_type i = n; i > 0; --i) { const XalanNode* const countedNode = m_countNodes[i - 1];"
              " if(node == countedNode) { result = CountType(i) + m_countNodesStartCount; break; }"
-             " if(executionContext.isNodeAfter(*countedNode, *node)) { break; } } return result;"), b, "getPreviouslyCounted: backwards scan")
+             " if(executionContext.isNodeAfter(*node, *countedNode)) { break; } } return result;"), b, "getPreviouslyCounted: backwards scan")
     if len(re.findall(r"m_countNodesStartCount\s*\(\s*0\s*\)", cth)) < 2 or re.search(r"m_countNodesStartCount\s*(=|\+=|\+\+)[^=]", cth + strip_comments(ct)):
         raise AnchorError("m_countNodesStartCount is no longer constantly 0")
     b = _norm(function_body(ct, r"CountersTable::countNode\s*\([^)]*\)\s*\{", "countNode"))
@@ -188,10 +188,11 @@ def gen_num7():
     # --- navigation ----------------------------------------------------------------------------
     b = _norm(function_body(src, r"ElemNumber::getPreviousNode\s*\([^)]*\)\s*const\s*\{", "getPreviousNode"))
     need(lit("if (eAny == m_level) { const XPath* const fromMatchPattern = m_fromMatchPattern; while(0 != pos) {"
-             " XalanNode* next = pos->getPreviousSibling(); if(0 == next) { next = pos->getParentNode();"
-             " if(0 != next && (next->getNodeType() == XalanNode::DOCUMENT_NODE || (0 != fromMatchPattern && fromMatchPattern->getMatchScore( next, *this, executionContext) != XPath::eMatchScoreNone)))"
-             " { pos = 0; break; } } else { XalanNode* child = next; while(0 != child) { child = next->getLastChild(); if(0 != child) next = child; } }"
-             " pos = next; if(0 != pos && (0 == countMatchPattern || countMatchPattern->getMatchScore( pos, *this, executionContext) != XPath::eMatchScoreNone)) { break; } } }"
+             " XalanNode* next = pos->getPreviousSibling(); if(0 == next) { next = pos->getParentNode(); }"
+             " else { XalanNode* child = next; while(0 != child) { child = next->getLastChild(); if(0 != child) next = child; } }"
+             " pos = next;"
+             " if(0 != pos && 0 != fromMatchPattern && fromMatchPattern->getMatchScore( pos, *this, executionContext) != XPath::eMatchScoreNone) { pos = 0; break; }"
+             " if(0 != pos && (0 == countMatchPattern || countMatchPattern->getMatchScore( pos, *this, executionContext) != XPath::eMatchScoreNone)) { break; } } }"
              " else { while (0 != pos) { pos = pos->getPreviousSibling();"
              " if (0 != pos && (0 == countMatchPattern || countMatchPattern->getMatchScore( pos, *this, executionContext) != XPath::eMatchScoreNone)) { break; } } } return pos;"),
          b, "getPreviousNode: level any walk / sibling walk")
@@ -200,16 +201,25 @@ def gen_num7():
              " if (0 != countMatchPattern) { if(countMatchPattern->getMatchScore( contextCopy, *this, executionContext) != XPath::eMatchScoreNone) { break; } }"
              " contextCopy = DOMServices::getParentOfNode(*contextCopy); } return contextCopy;"), b, "findAncestor")
     b = _norm(function_body(src, r"ElemNumber::findPrecedingOrAncestorOrSelf\s*\([^)]*\)\s*const\s*\{", "findPrecedingOrAncestorOrSelf"))
-    need(lit("while (thePos != 0) { if (0 != fromMatchPattern) { if (fromMatchPattern->getMatchScore( thePos, *this, executionContext) != XPath::eMatchScoreNone) { thePos = 0; break; } }"
+    need(lit("while (thePos != 0) { if (0 != fromMatchPattern && thePos != context) { if (fromMatchPattern->getMatchScore( thePos, *this, executionContext) != XPath::eMatchScoreNone) { thePos = 0; break; } }"
              " if (0 != countMatchPattern) { if (countMatchPattern->getMatchScore( thePos, *this, executionContext) != XPath::eMatchScoreNone) { break; } }"
              " XalanNode* const previousSibling = thePos->getPreviousSibling(); if (previousSibling == 0) { thePos = DOMServices::getParentOfNode(*thePos); }"
              " else { thePos = previousSibling; XalanNode* lastChild = thePos->getLastChild(); while (lastChild != 0) { thePos = lastChild; lastChild = thePos->getLastChild(); } } }"
              " return thePos;"), b, "findPrecedingOrAncestorOrSelf")
     b = _norm(function_body(src, r"ElemNumber::getMatchingAncestors\s*\([^)]*\)\s*const\s*\{", "getMatchingAncestors"))
-    need(lit("while (0 != node) { if (0 != m_fromMatchPattern && m_fromMatchPattern->getMatchScore( node, *this, executionContext) != XPath::eMatchScoreNone)"
-             " { if(!stopAtFirstFound) { break; } } @ANY@"
+    need(lit("const XalanNode* const theStartNode = node;"
+             " while (0 != node) { if (0 != m_fromMatchPattern && node != theStartNode && m_fromMatchPattern->getMatchScore( node, *this, executionContext) != XPath::eMatchScoreNone)"
+             " { break; } @ANY@"
              " if(countMatchPattern->getMatchScore(node, *this, executionContext) != XPath::eMatchScoreNone) { ancestors.addNode(node); if (stopAtFirstFound) { break; } }"
              " node = DOMServices::getParentOfNode(*node); }"), b, "getMatchingAncestors")
+    m = need(r"ElemNumber::s_atString\s*\[\s*\]\s*=\s*\{(.*?)\}\s*;", cpp, "s_atString")
+    if _zstr(m.group(1), env, "s_atString") != [0x40]:
+        raise AnchorError("s_atString is not \"@\"")
+    b = _norm(function_body(src, r"ElemNumber::getCountMatchPattern\s*\([^)]*\)\s*const\s*\{", "getCountMatchPattern"))
+    need(lit("theMatchPatternString.get().assign(s_atString); theMatchPatternString.get().append(theNodeName);"), b, "getCountMatchPattern: '@' + attribute name")
+    need(lit("theMatchPatternString.get() = s_piString; theMatchPatternString.get().append(1, XalanUnicode::charApostrophe);"
+             " theMatchPatternString.get().append(contextNode->getNodeName()); theMatchPatternString.get().append(1, XalanUnicode::charApostrophe);"
+             " theMatchPatternString.get().append(1, XalanUnicode::charRightParenthesis);"), b, "getCountMatchPattern: processing-instruction('target')")
     b = _norm(function_body(src, r"ElemNumber::getTargetNode\s*\([^)]*\)\s*const\s*\{", "getTargetNode"))
     need(lit("if (eAny == m_level) { target = findPrecedingOrAncestorOrSelf( executionContext, m_fromMatchPattern, countMatchPattern, sourceNode); }"
              " else { target = findAncestor( executionContext, m_fromMatchPattern, countMatchPattern, sourceNode); } return target;"), b, "getTargetNode")
